@@ -42,6 +42,14 @@ CHECKS = {
          "No enumerated input makes parse raise anything but a UBX* error or return a message that cannot be inspected; no enumerated stream/configuration makes iteration exceed the horizon, raise under IGNORE/LOG, or raise a non-protocol exception under RAISE.",
          "60 s watchdog for a single call; horizon 4*len+16 stream calls; inputs outside the enumerated alphabets/lengths not covered.",
          "DESIGN.md §5 C08"),
+ "C05": ("fault enumeration: every single-byte substitution/insertion/deletion/truncation, bursts and (short frames) double substitutions over a family of valid frames incl. all 65,536 zero-length frames, plus all byte strings over a header alphabet; oracle = reference well-formedness predicate",
+         "No enumerated corruption of any family frame and no enumerated byte string is accepted by parse(validate=VALCKSUM) unless it is itself a well-formed frame; every malformed one is refused with UBXParseError; with VALNONE a corrupted checksum does not change identity or attributes.",
+         "reference framing and Fletcher in mc/refmodel/core.py; substitution values limited to 9 boundary bytes for long frames (quick: also for most zero-length frames).",
+         "DESIGN.md §5 C05"),
+ "C16": ("exhaustive walk of every node of every definition table of the working tree against the README grammar and namespace rule, plus nominal build+parse of every routed (message, mode) in both bitfield views",
+         "Every shipped definition obeys the grammar (types, flag widths, group sizes by earlier top-level integer, one trailing variable-by-size group, unique keyword-addressable names, no collision with UBXMessage attributes) and a nominal instance of every routed (message, mode) can be built and parsed with one attribute per named field.",
+         "grammar as written in README; entries no API route can reach are grammar-checked only; known findings: FOO-BAR test fixture, parsebitfield=0 with flag-sized groups.",
+         "DESIGN.md §5 C16"),
 }
 NOT_YET = "check not built yet in this round (planned: see DESIGN.md §5)"
 
